@@ -116,15 +116,15 @@ CLAIMED = {
  "C16": dict(
    text="Lean theorems: by value — if a request object takes effect it verified under the identified client's keys, used an algorithm permitted for "
         "that client (registered value, else the provider's list), names exactly that client, and ALL effective parameters are the object's; "
-        "unsigned objects are refused when a signing algorithm is registered; wrong key / non-permitted algorithm / other client refused. PAR — "
+        "unsigned objects are refused when a signing algorithm is registered; wrong key / non-permitted algorithm / other client refused; by reference (fetched from the request_uri) — by_reference_sound: what takes effect was signed by the identified client with a permitted algorithm, names no other issuer, and lies over the outer parameters (overlay lemmas), with the proved witness by_reference_other_client_takes_effect for the clause the code does not enforce there (known finding F-C16-h). PAR — "
         "par_one_shot: in every history of pushes, redemptions (any client, any URN, any number of replays) and clock advances each URN is "
         "honoured at most once (induction with a freshness/no-duplicates invariant), unknown URNs refused; redeem_proceeds: a redemption "
         "proceeds only for an issued URN, only for the client that pushed it, only while now <= push time + announced lifetime, with the "
         "stored request. Tie: request objects built concretely with "
-        "cryptojwt across signer x inner client_id x registered-algorithm clients through the real authorization endpoint (OIDC and OAuth2 flavour), request objects pushed by PAR, and PAR histories "
+        "cryptojwt across signer x inner client_id x registered-algorithm clients through the real authorization endpoint (OIDC and OAuth2 flavour) by value and by reference (in-memory transport), request objects pushed by PAR, and PAR histories "
         "through the real pushed-authorization + authorization endpoints.",
-   note="JWS verification idealised (field `verifies` from the harness's knowledge of the signing key); the request_uri fetch transport is not driven "
-        "(its policy code predates the fix); JWE not modelled.",
+   note="JWS verification idealised (field `verifies` from the harness's knowledge of the signing key); the HTTP fetch of a request_uri is replaced by an in-memory transport; "
+        "registered request_uris matching and JWE not modelled.",
    technique="Lean 4 proof (decision logic + one-shot history invariant by induction) + endpoint correspondence with concrete request objects", ref="6 C16"),
  "C19": dict(
    text="Lean theorems: admission_table — over the whole finite space application type x response-type class x scheme class x loopback x fragment "
